@@ -1038,6 +1038,26 @@ func c13Apply(c *Case, b *c13Base, mn *c13MapNode, op c13Op, strictSelfCheck boo
 	if op.Form != c13FormPlain && !atItem {
 		hi = mu.KeyHi
 	}
+	if atItem {
+		// "at the item": the item is a mapping; it starts at the first property (&anchor / !tag) of
+		// its first key and the text of that key follows. Both ends name the item, so any column
+		// from the one to the other is accepted (the statement does not say more).
+		if ls := strings.Split(mu.Src, "\n"); want.Line >= 1 && want.Line <= len(ls) {
+			rs := []rune(ls[want.Line-1])
+			i := want.Col - 1
+			for i >= 0 && i < len(rs) && (rs[i] == '&' || rs[i] == '!') {
+				for i < len(rs) && rs[i] != ' ' && rs[i] != '\t' {
+					i++
+				}
+				for i < len(rs) && (rs[i] == ' ' || rs[i] == '\t') {
+					i++
+				}
+			}
+			if i < len(rs) && i+1 > hi {
+				hi = i + 1
+			}
+		}
+	}
 	flow := m.Style&yaml.FlowStyle != 0
 	formLabel := op.Form
 	if formLabel == c13FormPlain && op.ValKind == c13ValAlias {
